@@ -80,7 +80,7 @@ def lean_build():
     return ok, (r.stdout + r.stderr)
 
 
-def lean_audit(theorems):
+def lean_audit(theorems, imports=("Verif",)):
     """grep for forbidden constructs; #print axioms for the given theorems.
     Returns dict(ok, forbidden=[...], axioms={thm: [...]}, missing=[...])."""
     bad = []
@@ -93,12 +93,12 @@ def lean_audit(theorems):
                 # the driver's I/O loop is the one allowed `partial def`; it is not matched by FORBIDDEN
                 bad.append("%s:%d: %s" % (os.path.relpath(p, ROOT), i + 1, l.strip()))
     os.makedirs(CACHE, exist_ok=True)
-    key = sha_files(lean_sources()) + hashlib.sha256(" ".join(theorems).encode()).hexdigest()[:8]
+    key = sha_files(lean_sources()) + hashlib.sha256(" ".join(list(theorems) + list(imports)).encode()).hexdigest()[:8]
     cachef = os.path.join(CACHE, "axioms-%s.json" % key)
     if os.path.exists(cachef):
         ax = json.load(open(cachef))
     else:
-        src = "import Verif\n" + "".join("#print axioms %s\n" % t for t in theorems)
+        src = "".join("import %s\n" % i for i in imports) + "".join("#print axioms %s\n" % t for t in theorems)
         tmp = os.path.join(CACHE, "audit-%d.lean" % os.getpid())
         open(tmp, "w").write(src)
         r = sh(["lake", "env", "lean", tmp], cwd=LEAN)
@@ -115,6 +115,10 @@ def lean_audit(theorems):
     extra = {t: v for t, v in extra.items() if v}
     return {"ok": not bad and not missing and not extra, "forbidden": bad, "axioms": ax["axioms"],
             "missing": missing, "extra_axioms": extra, "raw": ax.get("raw", "")[-2000:]}
+
+
+def lean_audit_conc(theorems):
+    return lean_audit(theorems, imports=("Verif", "Verif.Conc.RaceFreeTable"))
 
 
 # ---------------------------------------------------------------------------------------------
